@@ -1,2 +1,3 @@
 pub mod wgl;
 pub mod promtext;
+pub mod dogstatsd;
